@@ -30,7 +30,7 @@ type FilterSpec struct {
 
 func (fs FilterSpec) String() string {
 	switch fs.Op {
-	case "labels", "fn", "nsname", "labels2", "nsnames", "lsel", "sel", "rvparity", "slow", "flaky", "gate":
+	case "labels", "fn", "nsname", "labels2", "nsnames", "lsel", "sel", "rvparity", "slow", "flaky", "gate", "selcorner":
 		return fs.Op + "(" + fs.K + "," + fs.V + ")"
 	case "not", "and", "or":
 		s := fs.Op + "("
@@ -146,6 +146,19 @@ func (fs FilterSpec) Build() filter.Filter {
 		return filter.LabelSelector(&metav1.LabelSelector{MatchLabels: map[string]string{fs.K: fs.V}})
 	case "sel":
 		return filter.Selector(labels.SelectorFromSet(labels.Set{fs.K: fs.V}))
+	case "selcorner":
+		// selectors without requirements: two that select nothing, two that select
+		// everything - equal lists of requirements, opposite meanings
+		switch fs.V {
+		case "lsel-nil":
+			return filter.LabelSelector(nil)
+		case "nothing":
+			return filter.Selector(labels.Nothing())
+		case "parsed-empty":
+			sel, _ := labels.Parse("")
+			return filter.Selector(sel)
+		}
+		return filter.Selector(labels.NewSelector())
 	case "fn":
 		k, v := fs.K, fs.V
 		return filter.FN(func(o metav1.Object) bool { return o.GetLabels()[k] == v })
